@@ -4,6 +4,7 @@ from fractions import Fraction
 import numpy as np
 from hypothesis import strategies as st
 
+from vlib import datasets as dsets
 from vlib.refs import downscale_ref as ref
 from vlib.refs import dtype_ref
 from vlib.runner import Sub
@@ -60,7 +61,10 @@ def cases(draw, method=None):
     # "auto" is the command-line default: the method follows the dataset type
     auto = method in ("average", "stride") and draw(st.integers(0, 2)) == 0
     return {"method": method, "dtype": dtype, "shape": shape, "data": data,
-            "factors": factors, "outside": outside, "auto": auto}
+            "factors": factors, "outside": outside, "auto": auto,
+            # memory layout of the array handed to the downscaler
+            "layout": draw(st.sampled_from(["c", "c", "c"] + list(
+                dsets.LAYOUTS[1:])))}
 
 
 def build(case):
@@ -100,7 +104,8 @@ def check_case(ctx, case):
             # a downscaler object serves every chunk of a pyramid: use it on
             # another array (other shape and dtype) first
             ds.downscale(np.ones((1, 3, 2, 5), dtype="uint16"), factors)
-            out = ds.downscale(arr, factors)
+            out = ds.downscale(dsets.laid_out(arr, case.get("layout", "c")),
+                               factors)
     except Exception as exc:
         ctx.fail("%s downscale%s of %s %s raised %s: %s" % (
             case["method"], factors, case["dtype"], shape,
@@ -109,7 +114,7 @@ def check_case(ctx, case):
     if tuple(out.shape) != eshape:
         ctx.fail("%s%s: output shape %s, expected %s for input %s" % (
             case["method"], factors, out.shape, eshape, shape))
-    if out.dtype != arr.dtype:
+    if out.dtype.newbyteorder("=") != arr.dtype.newbyteorder("="):
         ctx.fail("output dtype %s, expected %s" % (out.dtype, arr.dtype))
     if arr.tobytes() != before:
         ctx.fail("input array modified by downscale")
